@@ -108,3 +108,9 @@ add("C06",
     "~30 modules x ~4 Ok buffers x 5 of 18 option sets (quick), ~12x more in thorough, plus ~2600 codec cases over all 8 integer types x 3 bases x grouping; finds unreadable output, dropped/extra fields, ordering errors, wrong digits/grouping/sign handling and wrap-around on malformed numbers.",
     "Trusts: embref for choosing Ok buffers; text equality of the second WriteToString as the read-back oracle; floats and single-line+comments output are out of scope as documented.",
     "DESIGN.md §4 C06")
+
+add("C04",
+    "sanitizer-instrumented property-based testing / fuzzing: generated modules (layout, write and copy/equals generators) compiled with clang++ -O1 -fsanitize=address,undefined and runtime checks on; generated scripts of checked API calls (observation on every prefix of garbage buffers incl. aligned views, partial text output and read-back, token-soup UpdateFromText, boundary-value write sequences, copies between short/overlapping windows) on exact-size heap buffers; oracle = no sanitizer report / CHECK abort / signal",
+    "~30 modules x ~120 commands (quick), ~320 modules in thorough; any out-of-bounds access, executed UB (overflow, bad shift, misaligned typed access, null dereference) or tripped runtime check on the explored scripts is reported with the command prefix as replay.",
+    "Trusts: ASan/UBSan as the memory-safety and UB oracle (UB that does not execute is invisible); clang 14 on x86-64 only.",
+    "DESIGN.md §4 C04")
